@@ -283,6 +283,33 @@ def sample_programs():
         cb("<t>", "<t> + <dt>")
     progs.append(("messages", DAGCode.from_phases_list(
         [cb.as_execution_phase("primary")], "primary"), {}))
+    # long headers of compound statements: loop bounds and statement guards that do not fit one line, in many
+    # lengths (so that some last continuation line ends right at the width) and at two nesting depths
+    from dagrt.language import Assign
+    from dagrt.expression import parse
+    for nterms in range(3, 15):
+        # (plain variables only: the Fortran generator takes no calls in loop bounds and guards)
+        bound = " + ".join(f"length_of_work_array_number_{k}*offset_{k}" for k in range(nterms))
+        guard = " + ".join(f"weight_{k}*norm_of_work_array_number_{k}" for k in range(nterms)) + " < <p>tolerance"
+        with CodeBuilder("primary") as cb:
+            for k in range(nterms):
+                cb(f"length_of_work_array_number_{k}", "3")
+                cb(f"norm_of_work_array_number_{k}", "1.5")
+                cb(f"offset_{k}", str(k + 1))
+                cb(f"weight_{k}", str(k + 2))
+            cb("acc", "`<builtin>array`(500)")
+            cb("acc[i]", "i", loops=[("i", 0, bound)])
+            cb("acc[i + j]", "i*j", loops=[("i", 0, "3"), ("j", 0, bound)])
+            with cb.if_("<dt> < 1"):
+                cb("acc[i + j]", "i + j", loops=[("i", 0, "3"), ("j", 0, bound)])
+            cb("<p>tolerance", "100")
+        stmts = list(cb.statements)
+        last = stmts[-1].id
+        stmts.append(Assign("<t>", (), parse("<t> + <dt>"), id="guarded_0", condition=parse(guard),
+                            depends_on=frozenset([last])))
+        from dagrt.language import ExecutionPhase
+        progs.append((f"long-headers-{nterms}", DAGCode({"primary": ExecutionPhase("primary", "primary", frozenset(stmts))},
+                                                        "primary"), {}))
     # phase names of every length up to what a Fortran identifier allows (they appear in generated names and in
     # whatever the generator writes next to them)
     for n in (27, 33, 39, 46):
